@@ -6,6 +6,9 @@ R-C03.2  containment: everything the profile function does after the filter sits
          catch-all handler that neither re-raises nor leaves without `return self`
 R-C03.3  trace_calls restores the previous profiler and flushes exactly once on every exit,
          restore first; trace()/run_handler use it as a context manager
+R-C03.4  nothing else on trace_calls' exit path can raise: every other call there (followed into
+         repository callees) is a builtin container operation or sits under a catch-all handler
+R-C03.5  the stock logger's serializer touches each trace only under its catch-all handler
 """
 from __future__ import annotations
 
@@ -440,6 +443,167 @@ def rule_restore_flush(ctx: Ctx, repo: Repo) -> None:
                   construct=f"{len(inside)} of {len(runs)} runpy calls inside")
 
 
+HARMLESS_CALLS = {"sys.setprofile", "sys.getprofile", "list", "tuple", "dict", "set", "len", "isinstance", "iter", "sorted"}
+HARMLESS_METHODS = {"items", "values", "keys", "clear", "append", "pop", "popitem", "get", "copy", "extend", "discard", "add", "remove"}
+
+
+def _guarded_ids(fn_node: ast.AST) -> Set[int]:
+    """ids of the nodes under a try whose catch-all handler does not re-raise"""
+    out: Set[int] = set()
+    for t in walk_no_nested(fn_node):
+        if not isinstance(t, ast.Try):
+            continue
+        hs = [h for h in t.handlers if _is_catch_all(h)]
+        if not hs or any(isinstance(y, ast.Raise) for h in hs for s in h.body for y in ast.walk(s)):
+            continue
+        for s in t.body:
+            for y in ast.walk(s):
+                out.add(id(y))
+    return out
+
+
+def _uncontained_calls(repo: Repo, fi: FunctionInfo, nodes: List[ast.AST], depth: int = 0, seen: Optional[Set[str]] = None) -> List[Tuple[FunctionInfo, ast.Call]]:
+    """calls among `nodes` (statements/expressions of fi) that can raise into fi's caller"""
+    seen = set() if seen is None else seen
+    guarded = _guarded_ids(fi.node)
+    bad: List[Tuple[FunctionInfo, ast.Call]] = []
+    for root in nodes:
+        for c in [x for x in ast.walk(root) if isinstance(x, ast.Call)]:
+            if id(c) in guarded:
+                continue
+            d = dotted(c.func) or ""
+            if d in HARMLESS_CALLS:
+                continue
+            callee = _resolve(repo, fi, c)
+            if callee is not None and callee.fq.startswith("monkeytype.") and depth < 3:
+                if callee.fq in seen:
+                    continue
+                seen.add(callee.fq)
+                body = [s for s in callee.node.body]
+                bad.extend(_uncontained_calls(repo, callee, body, depth + 1, seen))
+                continue
+            if isinstance(c.func, ast.Attribute) and c.func.attr in HARMLESS_METHODS and not (dotted(c.func.value) or "").endswith("logger"):
+                continue
+            bad.append((fi, c))
+    return bad
+
+
+def rule_exit_contained(ctx: Ctx, repo: Repo) -> None:
+    tc = repo.fn(M, "trace_calls")
+    g = cfg_of(tc)
+    lparam = tc.positional_params()[0]
+    yields = [n for n in g.stmts() if any(isinstance(x, (ast.Yield, ast.YieldFrom)) for x in n.walk())]
+    if len(yields) != 1:
+        raise AnalysisError("trace_calls does not have exactly one yield")
+    y = yields[0]
+    after = [g.node(nid) for nid in sorted(g.reach(y.id)) if nid not in (y.id, g.exit, g.rexit)]
+    n = 0
+    for node in after:
+        if node.ast is None:
+            continue
+        exprs = [node.ast] if not isinstance(node.ast, (ast.Try, ast.With, ast.For, ast.While, ast.If)) else []
+        if isinstance(node.ast, (ast.If, ast.While)):
+            exprs = [node.ast.test]
+        for e in exprs:
+            for c in [x for x in ast.walk(e) if isinstance(x, ast.Call)]:
+                d = dotted(c.func) or ""
+                if d == "sys.setprofile" or (isinstance(c.func, ast.Attribute) and c.func.attr == "flush" and dotted(c.func.value) == lparam):
+                    continue  # decided by R-C03.3
+                n += 1
+                bad = _uncontained_calls(repo, tc, [c])
+                if not bad:
+                    ctx.ok("R-C03.4", tc.fq, f"`{norm(c)[:70]}` on the exit path cannot raise past a catch-all handler")
+                for bfi, bc in bad:
+                    ctx.violate("R-C03.4", bfi.fq, norm(bc),
+                                "this call runs on trace_calls' exit path outside any catch-all handler: its failure reaches the traced "
+                                "program and skips what follows (flush)", node=bc)
+    ctx.count("R-C03.4:extra calls on the exit path of trace_calls", n)
+    ctx.ok("R-C03.4", tc.fq, f"{len(after)} statements follow the yield; {n} calls besides restore and flush, none can raise uncontained")
+
+
+def _param_uses_contained(repo: Repo, fi: FunctionInfo, var: str, scope: List[ast.AST], depth: int = 0) -> List[Tuple[FunctionInfo, ast.AST]]:
+    """uses of `var` within `scope` (nodes of fi) that are not under a non-re-raising catch-all handler"""
+    guarded = _guarded_ids(fi.node)
+    bad: List[Tuple[FunctionInfo, ast.AST]] = []
+    parents: Dict[int, ast.AST] = {}
+    for root in scope:
+        for x in ast.walk(root):
+            for ch in ast.iter_child_nodes(x):
+                parents[id(ch)] = x
+    for root in scope:
+        for x in ast.walk(root):
+            if not (isinstance(x, ast.Name) and x.id == var and isinstance(x.ctx, ast.Load)):
+                continue
+            if id(x) in guarded:
+                continue
+            par = parents.get(id(x))
+            if isinstance(par, ast.Call) and (x in par.args or any(k.value is x for k in par.keywords)) and depth < 3:
+                callee = _resolve(repo, fi, par)
+                if callee is not None and callee.fq.startswith("monkeytype."):
+                    pname = bound_argument_name(callee, par, x)
+                    if pname is not None:
+                        bad.extend(_param_uses_contained(repo, callee, pname, list(callee.node.body), depth + 1))
+                        continue
+            if isinstance(par, (ast.Yield, ast.Return, ast.Assign, ast.AnnAssign)) or (isinstance(par, ast.Expr)):
+                continue  # handing the object on does not operate on it
+            bad.append((fi, par if par is not None else x))
+    return bad
+
+
+def bound_argument_name(callee: FunctionInfo, call: ast.Call, arg: ast.AST) -> Optional[str]:
+    from mtsa.index import bind_args
+    skip = callee.cls is not None and "staticmethod" not in callee.decorators()
+    for name, a in bind_args(callee, call, skip).items():
+        if a is arg and not name.startswith("*"):
+            return name
+    return None
+
+
+def _resolve(repo: Repo, fi: FunctionInfo, call: ast.Call) -> Optional[FunctionInfo]:
+    """resolve_callee, plus methods called on a local that was bound to a constructed package class"""
+    callee = repo.resolve_callee(fi, call)
+    if callee is not None:
+        return callee
+    f = call.func
+    if isinstance(f, ast.Attribute) and isinstance(f.value, ast.Name):
+        for x in walk_no_nested(fi.node):
+            if isinstance(x, ast.Assign) and len(x.targets) == 1 and isinstance(x.targets[0], ast.Name) and x.targets[0].id == f.value.id and isinstance(x.value, ast.Call):
+                init = repo.resolve_callee(fi, x.value)
+                if init is not None and init.cls is not None and init.qualname.endswith("__init__"):
+                    try:
+                        return repo.method(init.cls, f.attr)
+                    except Exception:
+                        return None
+    return None
+
+
+def rule_serializer_contained(ctx: Ctx, repo: Repo) -> None:
+    fi = repo.fn("monkeytype.encoding", "serialize_traces")
+    ctx.functions.add(fi.fq)
+    src = fi.positional_params()[0]
+    loops = [x for x in walk_no_nested(fi.node) if isinstance(x, (ast.For, ast.comprehension)) and any(isinstance(y, ast.Name) and y.id == src for y in ast.walk(x.iter))]
+    ctx.floor("R-C03.5", "loops over the batch in serialize_traces", len(loops), 1)
+    n = 0
+    for lp in loops:
+        if not isinstance(lp, ast.For) or not isinstance(lp.target, ast.Name):
+            raise AnalysisError("serialize_traces no longer iterates the batch with a plain for loop")
+        var = lp.target.id
+        uses = [x for s in lp.body for x in ast.walk(s) if isinstance(x, ast.Name) and x.id == var and isinstance(x.ctx, ast.Load)]
+        n += len(uses)
+        bad = _param_uses_contained(repo, fi, var, list(lp.body))
+        for bfi, b in bad:
+            ctx.violate("R-C03.5", bfi.fq, norm(b)[:100],
+                        "a trace of the batch is operated on outside the per-trace catch-all handler: one bad trace fails the whole "
+                        "flush, and the failure leaves the tracing context into the program", node=b)
+        if not bad:
+            ctx.ok("R-C03.5", fi.fq, f"all {len(uses)} use(s) of `{var}` in the loop are under `except Exception` (or only hand the object on)")
+    ctx.floor("R-C03.5", "uses of the per-trace loop variable", n, 1)
+    # the only caller on the flush path
+    add = repo.method(repo.cls("monkeytype.db.sqlite", "SQLiteStore"), "add")
+    ctx.check(any(is_call_to(c, "serialize_traces") for c in calls_in(add.node)), "R-C03.5", add.fq,
+              "the stock store serializes a batch through serialize_traces", construct="serialize_traces call in SQLiteStore.add")
+
+
 def run(ctx: Ctx, repo: Repo, tier: str) -> None:
     ctx.trust(
         "CPython data model: isinstance() falls back to obj.__class__; getattr/hasattr/attribute access run __getattribute__/"
@@ -458,3 +622,5 @@ def run(ctx: Ctx, repo: Repo, tier: str) -> None:
     rule_effects(ctx, repo)
     rule_containment(ctx, repo)
     rule_restore_flush(ctx, repo)
+    rule_exit_contained(ctx, repo)
+    rule_serializer_contained(ctx, repo)
